@@ -163,3 +163,75 @@ def shape_rule(ctx, rep, zones_of, rid="SHAPE"):
     rep.count("typed accessors recognised", len(pairs))
     if n < 2:
         raise MissingAnchor("SHAPE: expected at least two accessor unwraps in the ungated zone, found %d" % n)
+
+
+def consumed_between(inst, K, names):
+    """token names that an `advance(false)` can consume between the open and the close of a node of kind K (some path)"""
+    out = set()
+    for r, b in inst.all_rule_bodies():
+        ks, _ = reaching_kinds(b)
+        closes = [pt for pt, vals, l in ks if K in vals]
+        if not closes:
+            continue
+        pr = P(b)
+        df = token_states(b, pr, names, names)
+        for cpt in closes:
+            ct = flow.item_at(b, cpt)
+            mk = pr.operand(ct["args"][1])
+            opens = [pt for pt, name, decl, args, t in calls(b) if (name.endswith("Parser::open") or name.endswith("Parser::open_before"))
+                     and mk[0] == "call" and pr.call_expr(t)[4] == mk[4]]
+            if not opens:
+                continue
+            # blocks on some path open -> close
+            fwd = set()
+            st = [opens[0][0]]
+            while st:
+                x = st.pop()
+                if x in fwd:
+                    continue
+                fwd.add(x)
+                if x != cpt[0]:
+                    st.extend(b.succ(x))
+            bwd = set()
+            st = [cpt[0]]
+            while st:
+                x = st.pop()
+                if x in bwd:
+                    continue
+                bwd.add(x)
+                if x != opens[0][0]:
+                    st.extend(b.pred(x))
+            for blk in fwd & bwd:
+                t = b.blocks[blk]["t"]
+                if t["t"] == "call" and pr.call_expr(t)[1].endswith("Parser::advance"):
+                    s2 = df.IN.get(blk)
+                    if s2 is not None and len(s2) < len(names):
+                        out |= {names[v] for v in s2}
+    return out
+
+
+def agreement_rule(ctx, rep, rid="ACCTOK"):
+    rep.rule(rid, "TABLE AGREEMENT: every typed-tree accessor that reads a token child (RuleDecl::name -> Id, TokenDecl::symbol -> Str, "
+                  "Predicate::value -> Predicate, ...) names a token kind that the self-hosted parser can consume directly between the open and "
+                  "the close of that node kind; an accessor that asks for a token its node can never own makes the typed view of every file "
+                  "lose that name, number or symbol")
+    lib = ctx.lelwel()
+    insts = [i for i in ctx.instances(with_corpus=False) if i.unit is lib and i.prefix == "frontend::parser"]
+    if not insts:
+        raise MissingAnchor("self-hosted parser instance not found")
+    inst = insts[0]
+    names = token_names(inst)
+    pairs = accessor_pairs(lib)
+    if len(pairs) < 8:
+        raise MissingAnchor("fewer than 8 typed accessors recognised in frontend::ast (%d)" % len(pairs))
+    cache = {}
+    for acc, (K, T) in sorted(pairs.items()):
+        if K not in cache:
+            cache[K] = consumed_between(inst, K, names)
+        toks = cache[K]
+        short_acc = "::".join(acc.replace("<", "").replace(">", "").split("::")[-2:])
+        if T in toks:
+            rep.ok(rid, "%s reads %s; a %s node can own %s" % (short_acc, T, K, sorted(toks)))
+        else:
+            rep.violation(rid, "%s|%s|%s" % (acc, K, T), "%s reads a token of kind %s, but between the open and the close of a %s node the self-hosted parser "
+                          "only consumes %s: the accessor can never succeed" % (acc, T, K, sorted(toks) or "nothing"))
